@@ -7,6 +7,7 @@ import os
 import re
 import signal
 import struct
+import sys
 import xml.etree.ElementTree as et
 from fractions import Fraction
 
@@ -76,7 +77,7 @@ CORPUS = {r: corpus(r) for r in READERS}
 DICT = {
   "srt": ["</b>", "<b>", "<font color=", "<font color=\"red\">", "</font>", "-->", "{\\an8}", "1\n", "\n\n", "00:00:00,000 --> 00:00:01,000\n",
           "<i", "{b}", "</i></i>", "&amp;", "\r", "﻿", "<!-- x -->", "<?x?>", "<font color=\"#f00\">", "<font color=\"orange\">",
-          "<![foo]>", "<![", "]]>", "<![CDATA[", "<!DOCTYPE x [", "&#", "&#x110000;", "</", "<>"],
+          "<![foo]>", "<![", "]]>", "<![CDATA[", "<!DOCTYPE x [", "&#", "&#x110000;", "</", "<>", "<i>" * 1000],
   "vtt": ["<rt>", "</rt>", "<ruby>", "</ruby>", "<c.", "<c.red.bg_blue>", "&", "&amp;", "&#x;", "NOTE ", "STYLE\n", "REGION\n", "line:", "line:-1",
           "position:50%,line-left", "size:0%", "vertical:rl", "align:", "-->", "<00:00:01.000>", "<v ", "<lang en>", "</b>", "\n\n", "WEBVTT",
           "00:00.000 --> 00:01.000\n", "\r"],
@@ -86,7 +87,7 @@ DICT = {
            ' tts:extent="auto"', ' tts:fontSize="1x"', ' tts:textShadow="1px"', ' style="nope"', ' style="s0"', ' style="s1 s0"', ' region="nope"', "<br/>", "<set/>", "</p>",
            "<span>", ' xml:space="preserve"', ' tts:position="center"', ' tts:direction="AUTO"', ' ttp:cellResolution="0 0"',
            ' tts:lineHeight="125%"', ' ittp:activeArea="1% 2% 300% 4%"', ' ttp:tickRate="0"', ' ttp:frameRateMultiplier="1 0"', ' ttp:frameRateMultiplier="0 1"', "&#0;", "<!-- c -->", "<?pi?>",
-           ' begin="1.0001s" end="1.0004s"', ' begin="1.0006s" end="1.0012s"', ' dur="0.0007s"', '<set tts:color="red" dur="1s"/>', ' end="0.0003s"', ' tts:display="block"', ' tts:textAlign="justify"', ' tts:writingMode="x"',
+           "<span>" * 400 + "x" + "</span>" * 400, ' begin="1.0001s" end="1.0004s"', ' begin="1.0006s" end="1.0012s"', ' dur="0.0007s"', '<set tts:color="red" dur="1s"/>', ' end="0.0003s"', ' tts:display="block"', ' tts:textAlign="justify"', ' tts:writingMode="x"',
            ' begin="1f" ttp:frameRate="0"', ' tts:textShadow="1px 1px"', ' tts:fontFamily="X"', ' tts:origin="1px"', ' tts:padding="1px 2px 3px 4px 5px"'],
 }
 BOUNDARY = ["0", "-1", "99", "100000000000000000000", "100000000000000000001", "123456789012345678", "999", "00", "1e5", ""]
@@ -315,6 +316,10 @@ def downstream(reader, data, doc, res, prefix):
       return fn()
     except Timeout:
       raise
+    except RecursionError:
+      # (the innermost frame of a recursion error is wherever the limit happened to be reached: the bucket names the stage only)
+      res.fail("%sdownstream:%s:crash:RecursionError" % (prefix, name), "maximum recursion depth exceeded")
+      return None
     except Exception as e:  # pylint: disable=broad-except
       bucket, harness = crash_bucket(e)
       if harness:
@@ -379,6 +384,9 @@ def run_case(case, res, limit, light=False):
     except UnicodeError:
       res.label("%s:rejected:UnicodeError" % reader)
       return
+    except RecursionError as e:
+      res.fail(prefix + "reader:crash:RecursionError", str(e)[:100])
+      return
     except Exception as e:  # pylint: disable=broad-except
       bucket, harness = crash_bucket(e)
       if harness:
@@ -395,8 +403,12 @@ def run_case(case, res, limit, light=False):
       return
     res.label(reader + ":document")
     body = doc.get_body()
-    nel = sum(1 for _ in body.dfs_iterator()) if body is not None else 0
-    has_p = body is not None and any(type(e).__name__ == "P" for e in body.dfs_iterator())
+    try:
+      nel = sum(1 for _ in body.dfs_iterator()) if body is not None else 0
+      has_p = body is not None and any(type(e).__name__ == "P" for e in body.dfs_iterator())
+    except RecursionError:
+      res.fail(prefix + "downstream:dfs_iterator:crash:RecursionError", "maximum recursion depth exceeded")
+      return
     if case["mutations"] and has_p:
       res.nontrivial = True
     if nel > 2000:
@@ -426,14 +438,20 @@ def check(case, res):
   res.label("origin:" + case["origin"], "mutated" if case["mutations"] else "verbatim")
   for m in case["mutations"]:
     res.label("mutation:" + m)
+  # the runner raises the interpreter's recursion limit for its own needs; ttconv is judged under the default one
+  limit = sys.getrecursionlimit()
+  sys.setrecursionlimit(1000)
   try:
-    run_case(case, res, 30)
-  except Timeout:
-    res.fails[:] = []
     try:
-      run_case(case, res, 90)
+      run_case(case, res, 30)
     except Timeout:
-      res.fail("%s:hang" % case["reader"], "no result within 90 s for %d bytes" % len(case["data"]))
+      res.fails[:] = []
+      try:
+        run_case(case, res, 90)
+      except Timeout:
+        res.fail("%s:hang" % case["reader"], "no result within 90 s for %d bytes" % len(case["data"]))
+  finally:
+    sys.setrecursionlimit(limit)
 
 
 def shrinker(case):
@@ -548,6 +566,11 @@ CATALOG = [
   ("imsc", (TT % ("", "<body begin=\"123456789012345678:00:01\"><div><p begin=\"1s\">b</p></div></body>")).encode()),
   # a region with both tts:extent and tts:position (the LCD filter resolves the position against the computed extent)
   ("imsc", (TT % (' tts:extent="640px 480px"', "<head><layout><region xml:id=\"r\" tts:extent=\"80% 20%\" tts:position=\"center bottom 10%\"/><region xml:id=\"q\" tts:extent=\"320px 10c\" tts:position=\"right 5px top 2c\"/></layout></head><body region=\"r\"><div><p>a</p><p region=\"q\">b</p></div></body>")).encode()),
+  # deep nesting (the readers, the ISD generator, the LCD filter and the writers are recursive)
+  ("imsc", (TT % ("", "<body><div><p>" + "<span>" * 400 + "a" + "</span>" * 400 + "</p></div></body>")).encode()),
+  ("imsc", (TT % ("", "<body>" + "<div>" * 400 + "<p>a</p>" + "</div>" * 400 + "</body>")).encode()),
+  ("srt", b"1\n00:00:01,000 --> 00:00:02,000\n" + b"<b>" * 1000 + b"x\n"),
+  ("vtt", b"WEBVTT\n\n00:01.000 --> 00:02.000\n" + b"<b>" * 1000 + b"x\n"),
   # loops in chained style references: a style that lists itself, two that list each other, a loop of three entered from outside
   ("imsc", (TT % ("", "<head><styling><style xml:id=\"s0\" style=\"s0\" tts:color=\"red\"/></styling></head><body style=\"s0\"><div><p>a</p></div></body>")).encode()),
   ("imsc", (TT % ("", "<head><styling><style xml:id=\"s0\" style=\"s1\"/><style xml:id=\"s1\" style=\"s0 s1\" tts:color=\"red\"/></styling></head><body><div><p style=\"s1\">a</p></div></body>")).encode()),
